@@ -29,11 +29,11 @@ type caseLog struct {
 }
 
 type logLine struct {
-	H      string          `json:"h"`
-	NT     bool            `json:"nt"`
-	Labels []string        `json:"labels,omitempty"`
-	Sample json.RawMessage `json:"sample,omitempty"`
-	Other  []string        `json:"other,omitempty"` // findings for other properties (informational)
+	H      string           `json:"h"`
+	NT     bool             `json:"nt"`
+	Labels []string         `json:"labels,omitempty"`
+	Sample json.RawMessage  `json:"sample,omitempty"`
+	Other  []string         `json:"other,omitempty"` // findings for other properties (informational)
 	Extra  map[string]int64 `json:"extra,omitempty"`
 }
 
@@ -84,7 +84,11 @@ func writeFail(engine string, c *Case, fs []Finding) {
 	if *flagOut == "" {
 		return
 	}
-	b, _ := json.MarshalIndent(failRecord{Prop: *flagProp, Engine: engine, Case: c, Findings: fs}, "", " ")
+	replayEngine := engine
+	if engine == "fuzz" {
+		replayEngine = "rt" // a case found by the native fuzzer is replayed by TestRT
+	}
+	b, _ := json.MarshalIndent(failRecord{Prop: *flagProp, Engine: replayEngine, Case: c, Findings: fs}, "", " ")
 	os.WriteFile(filepath.Join(*flagOut, fmt.Sprintf("fail-%s-%s-%d.json", *flagProp, engine, *flagShard)), b, 0o644)
 }
 
